@@ -15,7 +15,8 @@ def sig_key(sig):
 
 def explore(ctx, shard, acc, make_monitors, n_histories, steps=(10, 30),
             weights=None, params_kw=None, nontrivial=None, classes=None,
-            known_sigs=(), body=None, max_prs=4, prelude=None):
+            known_sigs=(), body=None, max_prs=4, prelude=None,
+            inject=False):
     """Run n_histories generated histories in this process.
 
     make_monitors() -> fresh monitor list per history.
@@ -42,7 +43,7 @@ def explore(ctx, shard, acc, make_monitors, n_histories, steps=(10, 30),
     @given(st.data())
     def run(data):
         params = data.draw(st_params(**(params_kw or {})), label='params')
-        hist = History(scratch, params, make_monitors())
+        hist = History(scratch, params, make_monitors(), inject=inject)
         try:
             if prelude:
                 prelude(data, hist)
@@ -81,21 +82,22 @@ def explore(ctx, shard, acc, make_monitors, n_histories, steps=(10, 30),
         run()
         # shrink each root cause by bounded delta debugging on the step list
         for k, (size, case, msg, sig) in sorted(found.items()):
-            small = ddmin(scratch, case, make_monitors, sig)
+            small = ddmin(scratch, case, make_monitors, sig, inject=inject)
             acc.violation(msg, small, sig)
     finally:
         scratch.cleanup()
 
 
-def has_sig(scratch, case, make_monitors, sig):
+def has_sig(scratch, case, make_monitors, sig, inject=False):
     try:
-        viols, _ = replay_case(scratch, case, make_monitors())
+        viols, _ = replay_case(scratch, case, make_monitors(),
+                               inject=inject)
     except Exception:
         return False
     return any(sig_key(s) == sig_key(sig) for _, s in viols)
 
 
-def ddmin(scratch, case, make_monitors, sig, budget=40):
+def ddmin(scratch, case, make_monitors, sig, budget=30, inject=False):
     steps = list(case['steps'])
     params = case['params']
     n = 2
@@ -108,7 +110,7 @@ def ddmin(scratch, case, make_monitors, sig, budget=40):
                 continue
             budget -= 1
             if has_sig(scratch, {'params': params, 'steps': cand},
-                       make_monitors, sig):
+                       make_monitors, sig, inject=inject):
                 steps = cand
                 n = max(n - 1, 2)
                 reduced = True
